@@ -105,3 +105,80 @@ parse_unit('c14_parse_call_pieces', 2, 5, 3, 300, extra=ONLYP)
 parse_unit('c14_parse_call_n4', 4, 5, 3, 1500, extra=NOP, thorough_only=True)
 parse_unit('c14_parse_call_pieces_n3', 3, 5, 3, 1500, extra=ONLYP, thorough_only=True)
 
+
+# ---- end of body: htp_mpartp_finalize from any well-formed matcher state (no part object yet) ----------------------------------
+FIN = '#define C14_FINALIZE 1\n'
+for _n, _x, _t in (('c14_finalize', NOP, 'start states without stored pieces (every state, set-aside CR or not)'),
+                   ('c14_finalize_pieces', ONLYP, 'start states with 1..PMAX stored pieces (open candidate)')):
+    dflt, us = parse_unwind(2, 5, 3)
+    UNITS.append(U(
+        name=_n, props=['C14', 'C01'], kind='bounded', src=[], link=['htp_util.c'],
+        replay='vin', contracts_inc=['c14_mpart.h'], pre=FIN + _x + PARSE_PRE,
+        harness='void HARNESS(void) { VIN(vin_t); c14_parse_harness(in); CANARY(); }',
+        defs={'quick': {'N': 2, 'BL': 5, 'PCAP': 3}},
+        flags_add=['--unwind', str(dflt)], unwindset=us, timeout=(300, 300), min_obl=50,
+        bound='delimiter of BL=5 bytes, at most 3 stored pieces, at most PCAP=3 bytes in front of the candidate',
+        sub=_t + ': htp_mpartp_finalize + htp_martp_process_aside with no part object yet: everything that was set aside (stored pieces, CR) is handed to the part layer in full '
+            'and in order ("part data is reproduced byte-for-byte", "identical for every chunking": what was set aside depends only on where the chunk ended)',
+        assumes=PARSE_ASSUMES[2:8] + ['current_part == NULL on entry (the set-aside bytes are all there is of the last part); the part layer stub creates no part object']))
+
+# ---- Content-Disposition: the value of name= / filename= is the quoted string that was sent (escaped quotes and backslashes) ----
+CDV_H = r'''
+#define PFX_NAME "form-data;name=\""
+#define PFX_FILE "form-data;filename=\""
+#define PFXMAX 20
+typedef struct { unsigned char tail[T]; size_t tl; unsigned char which; } vin_t;
+static struct { bstr b; unsigned char d[PFXMAX + T]; } cdv_val;
+static htp_header_t cdv_h; static htp_mpartp_t cdv_parser; static htp_multipart_part_t cdv_part;
+void *v_stub_get_c(const htp_table_t *table, const char *ckey) { return &cdv_h; }
+/* constant-capacity model of bstr_dup_mem (symbolic-size heap objects do not bit-blast; same model as units/c03_seg.py) */
+bstr *v_model_dup_mem(const void *data, size_t len) {
+  if (len > T) return NULL;
+  bstr *b = malloc(sizeof(bstr) + T); if (b == NULL) return NULL;
+  b->len = len; b->size = len; b->realptr = NULL;
+  for (size_t i = 0; i < T; i++) if (i < len) ((unsigned char *) b)[sizeof(bstr) + i] = ((const unsigned char *) data)[i];
+  return b; }           /* the part has a Content-Disposition header */
+void HARNESS(void) { VIN(vin_t);
+  VASSUME(in.tl <= T);
+#if CDV_FILE
+  const int file = 1; static const char pfx[] = PFX_FILE;
+#else
+  const int file = 0; static const char pfx[] = PFX_NAME;
+#endif
+  const size_t pl = sizeof(pfx) - 1;
+  for (size_t i = 0; i < sizeof(pfx) - 1; i++) cdv_val.d[i] = (unsigned char) pfx[i];
+  for (size_t i = 0; i < T; i++) cdv_val.d[sizeof(pfx) - 1 + i] = in.tail[i];
+  cdv_val.b.len = pl + in.tl; cdv_val.b.size = PFXMAX + T; cdv_val.b.realptr = NULL;
+  cdv_h.value = &cdv_val.b; cdv_part.parser = &cdv_parser; cdv_part.name = NULL; cdv_part.file = NULL; cdv_parser.multipart.flags = 0;
+  htp_status_t rc = htp_mpart_part_parse_c_d(&cdv_part);
+  VASSERT(rc == HTP_OK || rc == HTP_DECLINED || rc == HTP_ERROR, "OK, DECLINED or ERROR");
+  unsigned char want[T]; size_t wl = 0; size_t close = ref_cd_quoted(in.tail, in.tl, want, &wl);
+  if (close == in.tl) {
+    if (rc != HTP_ERROR) VASSERT(rc == HTP_DECLINED && (cdv_parser.multipart.flags & HTP_MULTIPART_CD_SYNTAX_INVALID), "a value without closing quote is refused and flagged");
+  } else if (close + 1 == in.tl) {
+    /* the header ends right after the closing quote: a well-formed single-parameter Content-Disposition */
+    if (rc != HTP_ERROR) {
+      VASSERT(rc == HTP_OK && cdv_parser.multipart.flags == 0, "well-formed Content-Disposition is accepted without anomaly flags");
+      bstr *got = file ? (cdv_part.file != NULL ? cdv_part.file->filename : NULL) : cdv_part.name;
+      VASSERT(got != NULL && (file ? cdv_part.name == NULL : cdv_part.file == NULL), "exactly the parameter that was sent is reported");
+      if (got != NULL) {
+        VASSERT(bstr_len(got) == wl, "reported value has the length of the quoted string that was sent (escape pairs count once)");
+        for (size_t i = 0; i < T; i++) if (i < wl && i < bstr_len(got)) VASSERT(bstr_ptr(got)[i] == want[i], "reported value is byte-for-byte the quoted string that was sent");
+      }
+    }
+  }
+  if (cdv_part.file != NULL) { bstr_free(cdv_part.file->filename); free(cdv_part.file); cdv_part.file = NULL; }
+  bstr_free(cdv_part.name); cdv_part.name = NULL;
+  CANARY(); }'''
+for _nm, _fl in (('ref_mpart_cd_value_name', 0), ('ref_mpart_cd_value_filename', 1)):
+    UNITS.append(U(
+        name=_nm, props=['C14', 'C02'], kind='bounded', src=['htp_multipart.c'], link=['bstr.c', 'htp_util.c'], replay='vin',
+        pre='#define htp_table_get_c v_stub_get_c\n#define bstr_dup_mem v_model_dup_mem\n', contracts_inc=['mpart_ref.h'], harness=CDV_H,
+        defs={'quick': {'T': 4, 'CDV_FILE': _fl}, 'thorough': {'T': 6, 'CDV_FILE': _fl}},
+        flags_add=['--unwind', '28', '--unwinding-assertions', '--memory-leak-check'], flags_del=['--unsigned-overflow-check'], timeout=(300, 1200), min_obl=50,
+        unwindset=','.join(['htp_mpart_part_parse_c_d.6:4'] + ['htp_mpart_part_parse_c_d.%d:28' % i for i in range(6)] + ['htp_mpart_decode_quoted_cd_value_inplace.0:8', 'ref_cd_quoted.0:8']),
+        bound='Content-Disposition value = form-data;name=" or form-data;filename=" followed by every byte string of length 0..T (quick 4, thorough 6); at most 3 parameters',
+        sub='real htp_mpart_part_parse_c_d + htp_mpart_decode_quoted_cd_value_inplace: the reported name / file name is byte-for-byte the quoted string that was sent, with \\" and \\\\ as escape pairs '
+            '(also at the very end of the value); an unterminated value is refused and flagged',
+        assumes=['the header lookup is replaced by a stub that returns the harness\' header (table look-up is C17)', 'bstr_dup_mem replaced by a constant-capacity model inside this TU', 'every allocation may fail (HTP_ERROR then, nothing asserted about the value)',
+                 'values followed by further parameters are exercised (any tail) but only memory safety is asserted for them']))
